@@ -34,7 +34,7 @@ vm('vm_instr_start', ['n&', 's$'],
    [P(F('INSTR', var('n&'), var('s$'), S('a')))], ref=True, strlen=3,
    pre='x0 <= 5 or x0 > 2147483640')
 vm('vm_exp_int', ['a%', 'b%'], [P(B('^', var('a%'), var('b%')))],
-   pre='-6 <= x0 <= 6 and -6 <= x1 <= 6')
+   pre='-3 <= x0 <= 3 and -3 <= x1 <= 3')
 
 # arrays
 vm('vm_dyn_dim', ['n%', 'i%'],
